@@ -31,5 +31,5 @@ def run(ctx):
     ctx.rule = ("TLC-assembled structured cases (Gen_C06) + named builders on 35 roots + %d random roots with 3..6 accidentals; distinct = "
                 "distinct (operation, arguments); non-trivial = root with an accidental, or slash/polychord/alias/malformed form" % n_rand)
     ctx.nontrivial = lambda r: r["op"] not in ("from_shorthand", "builder", "named_builder", "list") or len(r["in"].get("root", [])) > 1 or r["in"].get("spelled") != r["in"].get("sh")
-    recs = ctx.execute("c06", cases)
+    recs = ctx.execute("c06", cases, orders=2)
     ctx.validate("Trace_C06", recs, driver="c06", shard=30000)
